@@ -8,10 +8,12 @@ import (
 	"encoding/json"
 	"fmt"
 	"github.com/6tail/lunar-go/calendar"
+	"github.com/6tail/lunar-go/vsync"
 	"os"
 	"os/exec"
 	"path/filepath"
 	"regexp"
+	"runtime"
 	"runtime/debug"
 	"runtime/pprof"
 	"sort"
@@ -581,8 +583,10 @@ func runWorker(id, shardJSON string) int {
 				site := "unknown"
 				for _, ln := range strings.Split(st, "\n") {
 					if strings.HasPrefix(ln, "github.com/6tail/lunar-go/") && !strings.Contains(ln, "/vsync.") {
-						site = strings.SplitN(strings.TrimPrefix(ln, "github.com/6tail/lunar-go/"), "(0x", 2)[0]
-						site = strings.TrimSuffix(site, "(...)")
+						site = strings.TrimPrefix(ln, "github.com/6tail/lunar-go/")
+						if k := strings.LastIndex(site, "("); k > 0 { // drop the argument list (addresses differ from run to run)
+							site = site[:k]
+						}
 						break
 					}
 				}
@@ -592,6 +596,11 @@ func runWorker(id, shardJSON string) int {
 				w.Viol(id+":uncaught-panic:"+site, fmt.Sprintf("library panicked in %s while the check was running: %v", site, r), tail(st, 1500))
 			}
 		}()
+		if id != "C09" {
+			// all checks but C09 drive the library from this one goroutine: waiting for a mutex that is held is a
+			// certain deadlock and is reported at once (see vsync.SetSingleThreaded)
+			vsync.SetSingleThreaded(runtime.NumGoroutine())
+		}
 		c.Run(w)
 	}()
 	js, err := json.Marshal(&w.R)
